@@ -2,6 +2,7 @@ import ShellOp.Proofs.Backoff
 import ShellOp.Proofs.Retry
 import ShellOp.Proofs.HookOutput
 import ShellOp.Proofs.Wait
+import ShellOp.Proofs.Payload
 /-!
 # C04 — failed runs are retried until success and block the queue unless allowFailure
 
@@ -787,5 +788,81 @@ theorem no_discard_same_binding_name_witness :
     (step cfg (step cfg s (.run false 0)) (.run false 0)).items
       = [{ id := 2, allowFailure := false, ctxs := [⟨7, 3, 0⟩] }] ∧
     (step (unrepaired (fun _ => 1) (fun k _ => 5 + k)) s (.run false 0)).items = [] := by decide
+
+/-! ## C04.9 "the same binding contexts are executed again": what the hook RECEIVES on the retry
+
+`Model/Payload`: the path `Hook.Run` → `UpdateSnapshots` → `MapV1` → context file, with the slices of
+the task's metadata as addresses in a heap. The contexts of the failed run stay in the task
+(`fail_keeps_head`: same task, the executed contexts written back); this part says what the hook is
+then SHOWN for them: Event members (`watchEvent`, `object`, `filterResult`) identical, `objects` of a
+Synchronization and every `snapshots` entry re-read from the monitors — nothing that the failed run
+saw and the monitors still hold is missing. -/
+
+open ShellOp.Payload in
+/-- **C04.9 `run_leaves_task_contexts`**: a run of `Hook.Run` (any monitors, any heap) does not change
+the array the queued task points to; the file it writes is the refreshed COPY. -/
+theorem run_leaves_task_contexts (mon : Nat → List Nat) (h : Heap) (a : Nat) (ha : a < h.length) :
+    (hookRunH mon h a).1.arr a = h.arr a ∧ (hookRunH mon h a).2 = contextFile mon (h.arr a) :=
+  hookRunH_spec mon h a ha
+
+open ShellOp.Payload in
+/-- **C04.9 `retry_shows_same_contexts`**: failed run on the contexts at address `a`, then (monitors
+may have gained objects, `arrived` contexts were merged behind, no compaction) the retry: every
+context of the failed run is in the retry's file with what it carried, and every ungrouped Event
+context as often as before. All heaps, monitors, context lists. -/
+theorem retry_shows_same_contexts (mon mon' : Nat → List Nat) (hm : ∀ k x, x ∈ mon k → x ∈ mon' k)
+    (h : Heap) (a : Nat) (ha : a < h.length) (arrived : List BC) :
+    let failed := hookRunH mon h a
+    let retry := contextFile mon' (failed.1.arr a ++ arrived)
+    shownAgain failed.2 retry = true ∧ eventsKept failed.2 retry = true := by
+  intro failed retry
+  have hs := hookRunH_spec mon h a ha
+  simp only [failed, retry, hs.1, hs.2]
+  refine ⟨shownAgain_of_covered mon mon' hm _ _ (fun x hx => Or.inl (List.mem_append_left _ hx)),
+    eventsKept_of_sublist mon mon' _ _ ?_⟩
+  rw [List.filter_append]
+  exact List.sublist_append_left _ _
+
+open ShellOp.Payload in
+/-- **C04.9 `retry_shows_same_contexts_compacted`**: the same for any later list `l'` that keeps the
+ungrouped contexts of `l` in order and, for a grouped one, at least a context of its group whose
+binding includes the same snapshots (what group compaction leaves: `retry_contexts`,
+`Proofs/Retry.compact_covers`; the bindings of a group share the group's snapshot list). -/
+theorem retry_shows_same_contexts_compacted (mon mon' : Nat → List Nat) (hm : ∀ k x, x ∈ mon k → x ∈ mon' k)
+    (l l' : List BC)
+    (hcov : ∀ x, x ∈ l → x ∈ l' ∨ (x.ctx.group ≠ 0 ∧ x.ctx.typ ≠ 4 ∧
+      ∃ y, y ∈ l' ∧ y.ctx.group = x.ctx.group ∧ y.ctx.typ ≠ 4 ∧ ∀ k, k ∈ x.incl → k ∈ y.incl))
+    (hsub : (l.filter (·.ctx.group == 0)).Sublist (l'.filter (·.ctx.group == 0))) :
+    shownAgain (contextFile mon l) (contextFile mon' l') = true ∧
+    eventsKept (contextFile mon l) (contextFile mon' l') = true :=
+  ⟨shownAgain_of_covered mon mon' hm l l' hcov, eventsKept_of_sublist mon mon' l l' hsub⟩
+
+open ShellOp.Payload in
+/-- Non-vacuity: an Event with its object (binding 2, snapshots of bindings 2 and 3), a schedule
+context with snapshots and a Synchronization; an object of binding 3 appears before the retry. -/
+example :
+    let l : List BC := [{ ctx := ⟨2, 1, 0⟩, watchEvent := 1, objects := [11], incl := [2, 3] },
+                        { ctx := ⟨5, 3, 0⟩, incl := [2] }, { ctx := ⟨3, 0, 0⟩ }]
+    let mon : Nat → List Nat := fun k => if k == 2 then [11] else []
+    let mon' : Nat → List Nat := fun k => if k == 2 then [11] else if k == 3 then [12] else []
+    contextFile mon l = [(⟨2, 1, 0⟩, { ev := [1, 11], snaps := [11] }), (⟨5, 3, 0⟩, { snaps := [11] }),
+                         (⟨3, 0, 0⟩, {})] ∧
+    contextFile mon' l = [(⟨2, 1, 0⟩, { ev := [1, 11], snaps := [11, 12] }), (⟨5, 3, 0⟩, { snaps := [11] }),
+                          (⟨3, 0, 0⟩, { objs := [12] })] ∧
+    shownAgain (contextFile mon l) (contextFile mon' l) = true := by decide
+
+open ShellOp.Payload in
+/-- The copy matters (kernel-checked witness about a variant that is NOT the code): with the contexts
+refreshed in place and objects / snapshots "released" once the file is written, the first run is
+right and the retry of a failed Event task is shown `"object": null` — the clause fails. -/
+theorem in_place_release_witness :
+    let h : Heap := [[{ ctx := ⟨2, 1, 0⟩, watchEvent := 1, objects := [11] }]]
+    let mon : Nat → List Nat := fun _ => []
+    let failed := hookRunInPlaceReleasing mon h 0
+    let retry := hookRunInPlaceReleasing mon failed.1 0
+    failed.2 = [(⟨2, 1, 0⟩, { ev := [1, 11] })] ∧ retry.2 = [(⟨2, 1, 0⟩, { ev := [1] })] ∧
+    shownAgain failed.2 retry.2 = false ∧
+    -- the code: same heap, same monitors
+    shownAgain (hookRunH mon h 0).2 (hookRunH mon (hookRunH mon h 0).1 0).2 = true := by decide
 
 end ShellOp.Retry.C04
